@@ -376,7 +376,7 @@ class Explorer:
             if r is not None:
                 return callee, args, r
         short = decl
-        if decl in PASS_THROUGH or callee in PASS_THROUGH:
+        if (decl in PASS_THROUGH or callee in PASS_THROUGH) and not t.get("resl"):
             a = args[0]
             if decl.endswith("Clone::clone") or decl.endswith("Deref::deref") or decl.endswith("AsRef::as_ref") or decl.endswith("Borrow::borrow") or decl.endswith("deref_mut") or decl.endswith("as_mut"):
                 # &T -> T (clone) or &T -> &U view: keep the referent identity
